@@ -27,43 +27,6 @@ def settle_way(rng, sp):
             sp["flags"]["way"] = "from"
     return sp
 
-ZERO = re.compile(r'^(0|""|nil|false|[\w.\[\]*]+\{\})$')
-
-
-def writes_of(src_text, recv_var, typ_fields):
-    """count, per written leaf, how often the method body writes it: a non-zero constructor argument (the trailing
-    comment names the field path), a setter call or an assignment"""
-    out = {}
-    for line in src_text.splitlines():
-        ln = line.strip()
-        m = re.match(r"^(.*),\s+//([\w.]+)\s*$", ln)
-        if m:
-            if not ZERO.match(m.group(1).strip()):
-                out[m.group(2)] = out.get(m.group(2), 0) + 1
-            continue
-        m = re.match(r"^%s\.Set(\w+)\(" % re.escape(recv_var), ln)
-        if m:
-            leaf = typ_fields.get(m.group(1))
-            if leaf:
-                out[leaf] = out.get(leaf, 0) + 1
-            continue
-        m = re.match(r"^%s\.(\w+) = " % re.escape(recv_var), ln)
-        if m:
-            out[m.group(1)] = out.get(m.group(1), 0) + 1
-    return out
-
-
-def method_bodies(text):
-    """split the generated file into the bodies of ToX and FromX"""
-    to = re.search(r"\nfunc \(\w+ \*\w+\) To\w+\(\) .*?\n}\n", text, re.S)
-    frm = re.search(r"\nfunc \(\w+ \*\w+\) From\w+\(.*?\n}\n", text, re.S)
-    return (to.group(0) if to else ""), (frm.group(0) if frm else "")
-
-
-def pascal(n):
-    return "".join(p[:1].upper() + p[1:] for p in n.split("_") if p)
-
-
 def shaped(g, rng):
     out = []
     for sides in (("dest",), ("src",), ("src", "dest")):
@@ -111,11 +74,6 @@ def gen_cases(ctx):
     return cases
 
 
-def leaf_of_accessor(st):
-    """Pascal-cased accessor stem -> field name, for a flat accessor-mode struct"""
-    return {pascal(m["name"]): m["name"] for m in st["members"] if m["k"] == "f"}
-
-
 def run_cases(ctx, cases):
     b = pkgrun.Batch(ctx)
     for c in cases:
@@ -131,20 +89,7 @@ def run_cases(ctx, cases):
         im["compile"] = "ok" if r["compile"] == "ok" else "error"
         gen = [v for k, v in r["written"].items() if k.endswith(".shootmap.%s.go" % sp["sname"].lower())]
         if gen and r["compile"] == "ok":
-            to, frm = method_bodies(gen[0])
-            svar = sp["sname"][:1].lower()
-            dvar = None
-            m = re.search(r"\n\t(\w+_) := ", to) or re.search(r"From\w+\((\w+_) \*", frm)
-            if m:
-                dvar = m.group(1)
-            if to and dvar:
-                w = writes_of(to, dvar, leaf_of_accessor(sp["dest"]))
-                for p, _ in mapgen.leaves(sp["dest"]):
-                    im["writes:to:" + p] = str(w.get(p, 0))
-            if frm:
-                w = writes_of(frm.replace("_%s_ := New" % svar, "xx := New"), svar, leaf_of_accessor(sp["src"]))
-                for p, _ in mapgen.leaves(sp["src"]):
-                    im["writes:from:" + p] = str(w.get(p, 0))
+            im.update(mapgen.text_writes(sp, gen[0]))
         impl[c["id"]] = im
         c["detail"] = {"stderr": r["runs"][-1]["stderr"][-600:], "compile": r["compile"],
                        "generated": {k: v for k, v in r["written"].items() if ".shootmap." in k}}
